@@ -439,10 +439,18 @@ def run_case(case, rec):
     if isinstance(obj, tmo.Stream) and case['comb'] in ('single', 'parallel', 'series'):
         other = 'wt' if case['basis'] == 'mol' else 'mol'
         try:
-            rx2 = select(build(full, th), full).copy(basis=other)
+            rx_src = select(build(full, th), full)
+            rx2 = rx_src.copy(basis=other)
             obj2, read2 = make_target(case, th, flows, MW)
             rx2(obj2)
             got2 = read2()
+            # the reaction the copy was taken from still acts as before (a re-based copy must not share rows with its source)
+            obj3, read3 = make_target(case, th, flows, MW)
+            rx_src(obj3)
+            got3 = read3()
+            bad3 = [(str(k), got.get(k, 0.0), got3.get(k, 0.0)) for k in set(got) | set(got3)
+                    if abs(got.get(k, 0.0) - got3.get(k, 0.0)) > 1e-10 * max(abs(got.get(k, 0.0)), abs(got3.get(k, 0.0))) + 1e-11 * scale]
+            rec.check(not bad3, 'basis-equivalence', f'source-after-rebased-copy/{tag}', f'after copy(basis={other}) the source reaction acts differently from before: {bad3[:4]}')
             bad2 = [(str(k), got.get(k, 0.0), got2.get(k, 0.0)) for k in set(got) | set(got2)
                     if abs(got.get(k, 0.0) - got2.get(k, 0.0)) > 1e-10 * max(abs(got.get(k, 0.0)), abs(got2.get(k, 0.0))) + 1e-11 * scale]
             rec.check(not bad2, 'basis-equivalence', f'{tag}', f'copy(basis={other}) gives another result on the same stream: {bad2[:4]}')
